@@ -281,6 +281,14 @@ func CheckFields(input PDU) error { // nolint: gocyclo
 		}
 	}
 
+	// Nor is the sender's format: an event without a valid sender is refused, it is not
+	// merely too large. (Pseudo IDs have no sigil or domain.)
+	if input.Version() != RoomVersionPseudoIDs {
+		if err := checkIDFormat(string(input.SenderID()), "user", '@'); err != nil {
+			return err
+		}
+	}
+
 	_, persistable := lenientByteLimitRoomVersions[input.Version()]
 
 	// Byte size check: if these fail, then be lenient to avoid breaking rooms.
@@ -302,16 +310,8 @@ func CheckFields(input PDU) error { // nolint: gocyclo
 		}
 	}
 
-	switch input.Version() {
-	case RoomVersionPseudoIDs:
-		// Pseudo IDs have no sigil or domain, but the length limits still apply.
-		if err := checkIDLength(string(input.SenderID()), "user"); err != nil {
-			return err
-		}
-	default:
-		if err := checkID(string(input.SenderID()), "user", '@'); err != nil {
-			return err
-		}
+	if err := checkIDLength(string(input.SenderID()), "user"); err != nil {
+		return err
 	}
 
 	// The parsers refuse a room ID of more than maxIDLength code points; one that exceeds
